@@ -125,9 +125,6 @@ Fixpoint pars_of (prev : rspar) (l : list (param sexpr)) : rspars * list token :
                (SPMore token (pgap prev) comma_t ws1 sq rest, w3)
   end.
 
-(* stands where an empty list has no accepted rendering (never reached for renderable statements) *)
-Definition dummy_list : rsl := SL token (SsExit token (kwt KExit)) (MNil token) ws1 semi_t.
-
 Definition sgap (s : rss) : list token := if sends token s then [] else ws1.
 
 (* the layout of a statement list  s1 ;\n s2 ;\n ... given the layout of a statement *)
@@ -140,20 +137,28 @@ Definition more_of (f : stmt -> rss) : rss -> list stmt -> smore token * list to
                  (MCons token (sgap prev) semi_t nl1 sx m, w)
     end.
 Definition list_sp (f : stmt -> rss) (first : stmt) (l : list stmt) : rsl :=
-  let s0 := f first in let '(m, w) := more_of f s0 l in SL token s0 m w semi_t.
+  let s0 := f first in let '(m, w) := more_of f s0 l in LOne token (GStmts token s0 m w semi_t).
+(* the body of a loop or ELSIF branch: an empty list is written as an empty statement and a line break *)
 Definition body_sp (f : stmt -> rss) (l : list stmt) : rsl :=
-  match l with [] => dummy_list | x :: l' => list_sp f x l' end.
-Definition eis_sp (f : stmt -> rss) : list (sexpr * list stmt) -> seis token :=
-  fix go (l : list (sexpr * list stmt)) : seis token :=
+  match l with [] => LOne token (GEmpty token [] semi_t nl1) | x :: l' => list_sp f x l' end.
+(* the line break after a body, unless the body was the empty statement (which has read it) *)
+Definition tail_gap (l : list stmt) : list token := match l with [] => [] | _ :: _ => nl1 end.
+Definition eis_sp (f : stmt -> rss) : list token -> list (sexpr * list stmt) -> seis token :=
+  fix go (lead : list token) (l : list (sexpr * list stmt)) : seis token :=
     match l with
     | [] => EINil token
     | (ec, eb) :: l' =>
         let sec := sp_of ec in
-        EICons token nl1 (kwt KElsif) ws1 sec (gap sec) (kwt KThen) nl1 (body_sp f eb) (go l')
+        EICons token lead (kwt KElsif) ws1 sec (gap sec) (kwt KThen) nl1 (body_sp f eb) (go (tail_gap eb) l')
     end.
+Fixpoint last_gap (l : list (sexpr * list stmt)) : list token :=
+  match l with
+  | [] => nl1
+  | (_, eb) :: [] => tail_gap eb
+  | _ :: l' => last_gap l'
+  end.
 
-(* statements.  A loop or ELSIF body that is empty has no rendering in this sub-language that reads back as the same
-   list (the renderer writes an empty statement there); [dummy_list] stands in and the theorems exclude the case. *)
+(* statements *)
 Fixpoint ss_of (s : stmt) : rss :=
   match s with
   | TAssign v e => SsAssign token (id_tok v) ws1 assign_t ws1 (sp_of e)
@@ -164,27 +169,27 @@ Fixpoint ss_of (s : stmt) : rss :=
       let sc := sp_of c in
       SsIf token (kwt KIf) ws1 sc (gap sc) (kwt KThen) nl1
         (match body with [] => BNone token | x :: l' => BSome token (list_sp ss_of x l') end)
-        (eis_sp ss_of eis)
-        (match els with [] => ENone token | x :: l' => ESome token nl1 (kwt KElse) nl1 (list_sp ss_of x l') end)
-        nl1 (kwt KEndIf)
+        (eis_sp ss_of nl1 eis)
+        (match els with [] => ENone token | x :: l' => ESome token (last_gap eis) (kwt KElse) nl1 (list_sp ss_of x l') end)
+        (match els with [] => last_gap eis | _ :: _ => nl1 end) (kwt KEndIf)
   | TFor v e1 e2 st body =>
       let s1 := sp_of e1 in let s2 := sp_of e2 in
       SsFor token (kwt KFor) ws1 (id_tok v) ws1 assign_t ws1 s1 (gap s1) (kwt KTo) ws1 s2 (gap s2)
         (match st with None => ByNone token | Some e3 => let s3 := sp_of e3 in BySome token (kwt KBy) ws1 s3 (gap s3) end)
-        (kwt KDo) nl1 (body_sp ss_of body) nl1 (kwt KEndFor)
+        (kwt KDo) nl1 (body_sp ss_of body) (tail_gap body) (kwt KEndFor)
   | TWhile c body =>
       let sc := sp_of c in
-      SsWhile token (kwt KWhile) ws1 sc (gap sc) (kwt KDo) nl1 (body_sp ss_of body) nl1 (kwt KEndWhile)
+      SsWhile token (kwt KWhile) ws1 sc (gap sc) (kwt KDo) nl1 (body_sp ss_of body) (tail_gap body) (kwt KEndWhile)
   | TRepeat body c =>
       let sc := sp_of c in
-      SsRepeat token (kwt KRepeat) nl1 (body_sp ss_of body) nl1 (kwt KUntil) ws1 sc (gap sc) (kwt KEndRepeat)
+      SsRepeat token (kwt KRepeat) nl1 (body_sp ss_of body) (tail_gap body) (kwt KUntil) ws1 sc (gap sc) (kwt KEndRepeat)
   | TExit => SsExit token (kwt KExit)
   | TReturn => SsReturn token (kwt KReturn)
   end.
 
 (* what the renderer writes for a statement list *)
 Definition render_list (l : list stmt) : list token :=
-  match l with [] => [] | _ :: _ => flat_l token (body_sp ss_of l) end.
+  match l with [] => [] | x :: l' => flat_l token (list_sp ss_of x l') end.
 
 (* no loop or ELSIF body is empty (there the renderer writes an empty statement, which this model does not spell) *)
 Fixpoint bodies_ok (s : stmt) : bool :=
